@@ -134,7 +134,7 @@ def repo_sources():
 
 
 def harness_hash():
-    return sha_files(repo_sources() + walk(HARNESS, (".cpp", ".hpp")))
+    return sha_files(repo_sources() + walk(HARNESS, (".cpp", ".hpp")) + [os.path.abspath(__file__)])
 
 
 def harness_build(hooks=False):
@@ -178,7 +178,7 @@ def harness_build(hooks=False):
     pref = "hs-" if hooks else "h-"
     hs = sorted((x for x in os.listdir(CACHE) if x.startswith(pref) and ".tmp" not in x),
                 key=lambda x: os.path.getmtime(os.path.join(CACHE, x)), reverse=True)
-    for old in hs[2:]:
+    for old in hs[4:]:
         shutil.rmtree(os.path.join(CACHE, old), ignore_errors=True)
     return exe, "built " + hh
 
@@ -342,7 +342,13 @@ def tie_break_of(prop, r):
     if r.crash and prop != "C08":
         return "harness died: " + r.crash.strip().splitlines()[-1][:200]
     if prop == "C08" and r.l2 and r.l2.startswith("DIFF"):
-        return "private structure differs from the slot-level model: " + r.l2
+        # a divergence that is already visible in the observable behaviour (outputs, observers, sweeps) is the
+        # business of the behavioural properties; C08's own tie is broken when the private structure leaves
+        # the slot-level model while the observable behaviour still agrees
+        m = re.search(r"ev=(\d+)", r.l2)
+        ev2 = int(m.group(1)) if m else 0
+        if r.l1 is None or r.l1["ev"] > ev2 or "field=structure" not in r.l2 and r.l1 is None:
+            return "private structure differs from the slot-level model: " + r.l2
     if spec["judge"] in ("L1", "TWIN") and r.l1:
         return "model and implementation disagree: " + r.l1["text"]
     return None
